@@ -28,9 +28,9 @@ static Args make(const JV& c, int n, Rng& rng) {
 		else if (cls("knots") == "toofew") { a.knots[0].resize(ord[0] + 1); a.knots[0].shrink_to_fit(); }
 		else if (cls("knots") == "few") { a.knots[0].resize(2 * ord[0] + 1); a.knots[0].shrink_to_fit(); }
 	}
-	if (cls("nsmooth") == "ndim") a.smooth.assign(n, 1e-3); else if (cls("nsmooth") == "other") a.smooth.assign(n == 1 ? 3 : n + 1, 1e-3);
-	if (cls("npen") == "ndim") a.pen.assign(n, 1); else if (cls("npen") == "other") a.pen.assign(n == 1 ? 3 : n + 1, 1);
-	if (cls("penorder") == "above") a.pen[0] = ord[0] + 1 + (uint32_t)rng.below(3); else if (cls("penorder") == "huge") a.pen[0] = 0xFFFFFFFFu;
+	if (cls("nsmooth") == "ndim") a.smooth.assign(n, 1e-3); else if (cls("nsmooth") == "other") a.smooth.assign(n == 1 ? 3 : n + 1, 1e-3); else if (cls("nsmooth") == "empty") { a.smooth.clear(); a.smooth.shrink_to_fit(); }
+	if (cls("npen") == "ndim") a.pen.assign(n, 1); else if (cls("npen") == "other") a.pen.assign(n == 1 ? 3 : n + 1, 1); else if (cls("npen") == "empty") { a.pen.clear(); a.pen.shrink_to_fit(); }
+	if (!a.pen.empty()) { if (cls("penorder") == "above") a.pen[0] = ord[0] + 1 + (uint32_t)rng.below(3); else if (cls("penorder") == "huge") a.pen[0] = 0xFFFFFFFFu; }
 	if (c.has("order") && !a.order.empty()) { if (cls("order") == "huge31") a.order[0] = 0x7FFFFFFFu; else if (cls("order") == "huge32") a.order[0] = 0xFFFFFFFFu; else if (cls("order") == "wrap") a.order[0] = 0x80000003u; }
 	if (cls("monodim") == "valid") a.monodim = 0; else if (cls("monodim") == "ndim") a.monodim = n; else if (cls("monodim") == "huge") a.monodim = 1000000;
 	return a;
@@ -84,7 +84,7 @@ int main(int argc, char** argv) {
 	while (std::getline(f, line)) {
 		if (line.empty()) continue; JV c = jparse(line); int nd = (int)c["ndim"].integer(); const JV& combo = c["combo"];
 		bool c_expressible = combo["weights"].str() == "ok" && combo["ncoord"].str() == "ok" && combo["coordlen"].str() == "ok" && combo["norder"].str() == "ok" && combo["nknotv"].str() == "ok"
-		                     && combo["nsmooth"].str() != "other" && combo["npen"].str() != "other";
+		                     && combo["nsmooth"].str() != "other" && combo["npen"].str() != "other" && combo["nsmooth"].str() != "empty" && combo["npen"].str() != "empty";
 		for (int api = 0; api < 3; api++) {
 			if (api == 2 && !c_expressible) continue;
 			std::string detail;
